@@ -89,6 +89,41 @@ fn main() {
       };
       std::process::exit(core::check::run_check(spec, &opts));
     }
+    "worker" => {
+      // fibsim worker <property> <lane_index> <batch_seed> <runs> <r> <n> <tier> <survey>
+      if args.len() < 10 {
+        usage();
+      }
+      let spec = registry::check_spec(&args[2]).unwrap_or_else(|| usage());
+      let li: usize = args[3].parse().unwrap_or_else(|_| usage());
+      let lane = &spec.lanes[li];
+      // One CPU per worker process: every run spawns a fresh OS thread, and letting those
+      // threads wander over all CPUs turns each stack munmap into cross-CPU TLB shootdowns.
+      unsafe {
+        let r: usize = args[6].parse().unwrap_or(0);
+        let ncpu = libc::sysconf(libc::_SC_NPROCESSORS_ONLN).max(1) as usize;
+        let mut set: libc::cpu_set_t = std::mem::zeroed();
+        libc::CPU_SET(r % ncpu, &mut set);
+        libc::sched_setaffinity(0, std::mem::size_of::<libc::cpu_set_t>(), &set);
+      }
+      let cfg = core::batch::LaneCfg {
+        lane: lane.name.clone(),
+        property: args[2].clone(),
+        batch_seed: args[4].parse().unwrap_or_else(|_| usage()),
+        runs: args[5].parse().unwrap_or_else(|_| usage()),
+        jobs: 1,
+        stop_on_first: true,
+        replay_dir: String::new(),
+        shrink_budget: 0,
+        survey: args[9] == "1",
+        part: Some((args[6].parse().unwrap_or_else(|_| usage()), args[7].parse().unwrap_or_else(|_| usage()))),
+        lane_index: li,
+        tier_quick: args[8] == "quick",
+      };
+      let known = core::known::Known::load(&format!("{}/known_findings.json", verif_dir));
+      println!("{}", (lane.scan_json)(&cfg, &known));
+      std::process::exit(0);
+    }
     "replay" => {
       if args.len() < 3 {
         usage();
